@@ -12,6 +12,7 @@ from ..harness import Discard, Violation, bt_frame_signature, run_sub
 RULE = (
     "wellformed: grammar-generated backtests (dates x prices x tree x algo stack x cost model x position mode) run to completion, "
     "then every report accessor is called and every recorded number must be finite; non-trivial = at least one trade happened. "
+    "builds_agree: the same generated spec run by the interpreted and by the compiled build of the working-tree sources (fresh processes) gives the same histories (1e-9). "
     "illformed_*: one generated family per ill-formed class of the statement; must raise (and where the statement implies refusal, leave state unchanged); "
     "non-trivial = the ill-formed state was actually reached. distinct = distinct spec hashes."
 )
@@ -295,8 +296,32 @@ def _case_illformed(ctx, spec):
     raise ValueError(klass)
 
 
-SUBS = {"wellformed": case_wellformed, "illformed": case_illformed}
-STRATS = {"wellformed": gen.backtest_spec, "illformed": ill_spec}
+def case_builds_agree(ctx, spec):
+    """the interpreted and the compiled build of the same sources give the same histories (fresh process each)"""
+    from . import c11
+
+    a = c11.run_in_process(spec, "py", 0)
+    b = c11.run_in_process(spec, "cy", 0)
+    if ("error" in a) != ("error" in b):
+        raise Violation("interpreted and compiled builds disagree: %s vs %s" % (a.get("error", "runs"), b.get("error", "runs")), signature="builds:error")
+    if "error" in a:
+        raise Discard("raises in both builds (wellformed sub's business)")
+    d = c11.first_diff(a["history"], b["history"])
+    if d:
+        # compiled code keeps typed locals in C doubles; allow the last bits
+        for k in a["history"]:
+            for f, x in a["history"][k].items():
+                y = b["history"].get(k, {}).get(f)
+                if y is None or len(x) != len(y):
+                    raise Violation("interpreted vs compiled build: %s" % d, signature="builds:shape")
+                for u, v in zip(x, y):
+                    if (u is None) != (v is None) or (u is not None and abs(u - v) > 1e-9 * max(1.0, abs(u), abs(v))):
+                        raise Violation("interpreted vs compiled build: %s.%s differs: %r vs %r" % (k, f, u, v), signature="builds:value")
+    return {"nontrivial": True, "labels": gen.spec_labels(spec) + (["bit_identical"] if not d else ["last_bits_differ"])}
+
+
+SUBS = {"wellformed": case_wellformed, "illformed": case_illformed, "builds_agree": case_builds_agree}
+STRATS = {"wellformed": gen.backtest_spec, "illformed": ill_spec, "builds_agree": lambda: gen.backtest_spec(max_dates=10)}
 for _k in ILL:
     STRATS["ill_" + _k] = (lambda kk: (lambda: ill_spec(klass=kk)))(_k)
     SUBS["ill_" + _k] = case_illformed
@@ -306,3 +331,8 @@ def shard(ctx):
     run_sub(ctx, "wellformed", gen.backtest_spec(), lambda s: case_wellformed(ctx, s), ctx.n(3000, 40000))
     for k in ILL:
         run_sub(ctx, "ill_" + k, ill_spec(klass=k), lambda s: case_illformed(ctx, s), ctx.n(160, 3000))
+    if ctx.kind == "py":
+        from .. import build
+
+        build.ensure_build("cy")
+        run_sub(ctx, "builds_agree", gen.backtest_spec(max_dates=10), lambda s: case_builds_agree(ctx, s), ctx.n(16, 320))
